@@ -395,6 +395,10 @@ func newSys(p *node, checkPeriod time.Duration) (*sys, error) {
 	h := http.HandlerFunc(func(w http.ResponseWriter, r *http.Request) {
 		s.invoked++
 		clock.Advance(s.latency)
+		if s.code == 200 && s.latency < time.Second {
+			w.Write([]byte("ok")) // the quick healthy answer never chooses a status: an IMPLICIT 200
+			return
+		}
 		w.WriteHeader(s.code)
 	})
 	cb, err := cbreaker.New(h, p.String(), cbreaker.FallbackDuration(fallbackD), cbreaker.RecoveryDuration(recoveryD), cbreaker.CheckPeriod(checkPeriod),
